@@ -54,10 +54,7 @@ func C17(c *Ctx) {
 		}
 		want := ref.Montgomery(m)
 		var got, got2 []byte
-		var before [160]byte
-		if raw.PointOK() {
-			before = raw.PointBytes(pc.P)
-		}
+		before := raw.PointSnap(pc.P)
 		pv := catch(func() { got = pc.P.BytesMontgomery(); got2 = pc.P.BytesMontgomery() })
 		e := ref.Encode(m)
 		c.Eval(!m.Eq(ref.Identity()), e[:], []byte(pc.Build))
@@ -77,7 +74,7 @@ func C17(c *Ctx) {
 			c.Fail("a second BytesMontgomery call on the same point returns something else", det)
 			continue
 		}
-		if raw.PointOK() && raw.PointBytes(pc.P) != before {
+		if raw.PointSnap(pc.P) != before {
 			c.Tally("BytesMontgomery rewrote its receiver (recorded, not a violation by itself)")
 		}
 		if why, _ := checkPoint(pc.P, m); why != "" {
